@@ -3,9 +3,10 @@ import itertools
 import collections
 from .. import model, sweep, lcfrs
 from ..runner import Result
-from ..bridge import build, quiet
+from ..bridge import build, quiet, build_via_export, extract, monitor
+from ..runner import scratch
 
-from trees import grammar, grammaranalysis
+from trees import grammar, grammaranalysis, transform
 
 ID = 'C06'
 LEVEL = 'exploration'
@@ -64,10 +65,24 @@ def check_bank(mtjs, order=None):
                     'what': 'extract: ' + kind})
     g, lex = {}, {}
     try:
-        for mt in mts:
-            ret = grammar.extract(build(mt, child_order=order), g, lex)
-            if ret is not g:
-                bad('return', 'extract does not return the grammar dict it was given')
+        if order == 'export+raise':
+            # trees as users have them: read by the export reader, made continuous in place, then extracted
+            live = []
+            for mt in mts:
+                t = build_via_export(model.MT(mt.sid, mt.toks, ('VROOT', '--', mt.root[2])), scratch())
+                for name in ('root_attach', 'negra_mark_heads', 'boyd_split', 'raising'):
+                    t = getattr(transform, name)(t)
+                live.append(t)
+                if monitor(t):
+                    return out, False       # C05's business
+            mts = [extract(t) for t in live]
+            for t in live:
+                grammar.extract(t, g, lex)
+        else:
+            for mt in mts:
+                ret = grammar.extract(build(mt, child_order=order), g, lex)
+                if ret is not g:
+                    bad('return', 'extract does not return the grammar dict it was given')
     except Exception as e:
         bad('exception', '%s: %s' % (type(e).__name__, e))
         return out, False
@@ -122,7 +137,7 @@ def run_chunk(chunk):
         if chunk['kind'] == 'single':
             for sh, k in sweep.iter_shapes(chunk):
                 for mt in label_variants(sh, chunk['dev']):
-                    for order in (None, 'rev'):
+                    for order in (None, 'rev', 'export+raise'):
                         vs, nt = check_bank([mt.to_json()], order)
                         take(vs, nt, (mt.key(), order))
                 res.sample({'treebank': [model.mt_str(mt.root, mt.toks)]})
